@@ -11,7 +11,13 @@ backend's <op> with these arguments" are the same capability, and what either re
 Result types: async_open / async_create cannot carry the passthrough backing id.  Their contract is the sync one with the result
 function replaced by its projection (`ares_open() = res_open()` without the last component): "what the sync twin returns, minus the
 passthrough id".  This is done by literal substitution on the imported clause text (logged; a clause that does not contain the expected
-text is ANCHOR-LOST, exit 2)."""
+text is ANCHOR-LOST, exit 2).
+
+Pseudo arm of async_read / async_write: the code answers ENOSYS itself where the sync twin asks the pseudo filesystem; equal exactly because
+PseudoFs implements neither - a FACT re-read from the text on every run (pseudo_count_fact), emitted as an axiom only when it holds.
+
+On a2a13e4 the unit reports one genuine deviation: async_getattr does not translate the owner ids of a pseudo-fs inode as the sync getattr
+does since d7a7ab7 ([C20.vfs.getattr.result][C20.vfs.getattr.ids]; findings/repro_async.rs::a6, findings/c20_vfs_async_getattr.patch)."""
 import copy
 import re
 
